@@ -18,11 +18,12 @@ import (
 // C17 — SA key objects are reusable: each operation behaves as on a fresh SA.
 
 type c17Case struct {
-	Suite int   `json:"suite"`
-	PRF   int   `json:"prf"`
-	Hist  []int `json:"history"`
-	Op    int   `json:"op"`
+	Suite int    `json:"suite"`
+	PRF   int    `json:"prf"`
+	Hist  []int  `json:"history"`
+	Op    int    `json:"op"`
 	Tier  string `json:"tier"`
+	Deep  int    `json:"long_run_step,omitempty"` // > 0: the op is step Deep of the long linear run (the alphabet applied round after round to one object)
 }
 
 type c17Op struct {
@@ -37,6 +38,7 @@ func c17Msgs() []ref.Msg {
 		{H: univ.BaseHdr, P: []ref.Payload{{T: ref.PNonce, Data: univ.Pat(20, 1)}, {T: ref.PNotify, B: 1, NType: 16388}}},
 		{H: h2, P: []ref.Payload{{T: ref.PCERT, B: 4, Data: univ.Pat(150, 2)}, {T: ref.PIDi, B: 2, Data: []byte("x@y")}, {T: ref.PAUTH, B: 2, Data: univ.Pat(32, 3)}}},
 		{H: h2},
+		{H: univ.BaseHdr, P: []ref.Payload{{T: ref.PCERT, B: 4, Data: univ.Pat(20000, 9)}}},
 	}
 }
 
@@ -67,6 +69,23 @@ func c17Ops(si, prfIdx int, thorough bool) []c17Op {
 				return "protected datagram refused by the independent peer: " + classifySK(uerr)
 			}
 			return "accepted by peer: " + r.H.Canon() + " [" + ref.CanonPayloads(r.Payloads) + "]"
+		}}
+	}
+	protectFail := func(mi int, initiator bool, at int) c17Op {
+		return c17Op{fmt.Sprintf("failing-protect(msg%d,as=%s,source fails at read %d)", mi, rn(initiator), at), func(sa *security.IKESAKey) string {
+			lm, err := univ.Build(msgs[mi])
+			if err != nil {
+				return "build-error"
+			}
+			script := make([]int, at+1)
+			script[at] = 1
+			seam := engine.NewSeam(engine.NewReplayRun(script), []int{engine.AnsA, engine.AnsErr})
+			restore := engine.Install(seam)
+			defer restore()
+			if _, err := ike.EncodeEncrypt(lm, sa, roleOf(initiator)); err != nil {
+				return "error"
+			}
+			return "protected although the source failed"
 		}}
 	}
 	mk := func(k univ.KeySet, mi int, senderI bool, ivseed int) []byte {
@@ -110,13 +129,18 @@ func c17Ops(si, prfIdx int, thorough bool) []c17Op {
 	ops = append(ops,
 		protect(0, true, 1), protect(1, false, 2), protect(1, true, 5), protect(2, false, 6),
 		unprotect("unprotect(tampered header)", flip(gI, 18), false, false),
-		unprotect("unprotect(forged, message id raised)", func() []byte { x := append([]byte(nil), gI...); x[20], x[21], x[22], x[23] = 0xff, 0xff, 0xff, 0xf0; return x }(), false, false),
+		unprotect("unprotect(forged, message id raised)", func() []byte {
+			x := append([]byte(nil), gI...)
+			x[20], x[21], x[22], x[23] = 0xff, 0xff, 0xff, 0xf0
+			return x
+		}(), false, false),
 		unprotect("unprotect(genuine I->R, higher message id)", mk(ks, 1, true, 30), false, true),
 		unprotect("unprotect(genuine I->R)", gI, false, false), unprotect("unprotect(genuine R->I)", gR, true, true),
 		unprotect("unprotect(tampered ciphertext)", flip(gI, 28+4+16+3), false, false), unprotect("unprotect(tampered icv)", flip(gR, len(gR)-1), true, false),
 		unprotect("unprotect(truncated)", gI[:len(gI)-7], false, false), unprotect("unprotect(short sk body)", append(append([]byte(nil), gI[:30]...), 0, 9, 1, 2, 3, 4, 5), false, false),
 		unprotect("unprotect(reflected)", gI, true, false), unprotect("unprotect(cross-key)", mk(other, 0, true, 10), false, false),
 		child(16, 1, univ.Pat(32, 5)), child(32, -1, nil),
+		protectFail(0, true, 0), protectFail(0, true, 1), protectFail(1, false, 1), protect(3, true, 7), protect(3, false, 8),
 	)
 	if thorough {
 		ops = append(ops,
@@ -165,6 +189,14 @@ func init() {
 			var cs c17Case
 			unmarshalCase(raw, &cs)
 			ops := c17Ops(cs.Suite, cs.PRF, cs.Tier == "thorough")
+			if cs.Deep > 0 {
+				fresh := make([]string, len(ops))
+				for i, op := range ops {
+					fresh[i] = c17Apply(op, c17Fresh(cs.Suite, cs.PRF))
+				}
+				c17Long(c, cs.Suite, cs.PRF, ops, fresh, cs.Deep)
+				return
+			}
 			sa := c17Fresh(cs.Suite, cs.PRF)
 			for _, h := range cs.Hist {
 				c17Apply(ops[h], sa)
@@ -236,6 +268,7 @@ func runC17(c *engine.Ctx) {
 			c.Transitions += res.Transitions
 			c.Traces += res.Transitions
 			c.Count(fmt.Sprintf("states/suite%d/prf%d", si, prfIdx), int64(res.States))
+			c17Long(c, si, prfIdx, ops, fresh, 0)
 			if res.Closed {
 				c.Count("closed_searches", 1)
 				c.Count("closure_depth_sum", int64(res.Depth))
@@ -244,6 +277,36 @@ func runC17(c *engine.Ctx) {
 			}
 		}
 	}
+}
+
+// c17Long: the whole alphabet applied round after round to one object (the hundredth operation, the thousandth):
+// volumes and counts that the breadth-first search cannot reach within its state bound. stopAt > 0 replays up to
+// that step only.
+func c17Long(c *engine.Ctx, si, prfIdx int, ops []c17Op, fresh []string, stopAt int) {
+	rounds := 40
+	if c.Thorough() {
+		rounds = 200
+	}
+	sa := c17Fresh(si, prfIdx)
+	step := 0
+	for r := 0; r < rounds; r++ {
+		for k := range ops {
+			oi := (k + r) % len(ops) // rotate so that every op follows every other op over the rounds
+			out := c17Apply(ops[oi], sa)
+			step++
+			c.Evals++
+			c.Transitions++
+			if out != fresh[oi] {
+				c.Violate("history-dependent/long-run/"+c17Class(ops[oi].name), fmt.Sprintf("suite %d: %s as operation %d on one SA object gives %s, on a fresh SA %s", si, ops[oi].name, step, trs(out), trs(fresh[oi])),
+					c17Case{Suite: si, PRF: prfIdx, Op: oi, Tier: c.Tier, Deep: step})
+				return
+			}
+			if stopAt > 0 && step >= stopAt {
+				return
+			}
+		}
+	}
+	c.Count("long_run_operations", int64(step))
 }
 
 func histNames(ops []c17Op, h []int) []string {
@@ -258,6 +321,10 @@ func histNames(ops []c17Op, h []int) []string {
 func c17ValidateFresh(c *engine.Ctx, ks univ.KeySet, si, prfIdx, oi int, name, out string) {
 	cs := c17Case{Suite: si, PRF: prfIdx, Op: oi, Tier: c.Tier}
 	switch {
+	case len(name) > 15 && name[:15] == "failing-protect":
+		if out != "error" {
+			c.Violate("fresh/source-failure-swallowed", name+": "+trs(out), cs)
+		}
 	case len(name) > 7 && name[:7] == "protect":
 		if len(out) < 16 || out[:16] != "accepted by peer" {
 			c.Violate("fresh/protect-fails", name+": "+trs(out), cs)
